@@ -242,6 +242,12 @@ def run(rep, tier, seed):
     shared = {'pp': PPTable()}
     for cfg in ('avx2', 'avx512'):
         check_cfg(rep, cfg, shared)
+    # the permutations are interpreted with the lane kernels replaced by their contracts: the contracts themselves are
+    # discharged here too (kernel mode, every lane), so that a defect inside a kernel the permutation uses is reported
+    # by this check and not only by C02 / C11
+    from .. import kcheck
+    kcheck.prove_field_contracts(rep, 'avx2', 4, seed=seed)
+    kcheck.prove_field_contracts(rep, 'avx512', 8, seed=seed)
     rep.assumptions += ['the reference in the checker takes the round constants and matrices from the library tables (no independent source exists '
                         'in the repository): "the tables are the specified ones" is pinned by the known-answer tests, not by this check',
                         'two residue normal forms of total degree d that differ are different functions (Schwartz-Zippel; d << p)']
